@@ -131,6 +131,9 @@ pub struct AuxShape {
     pub width: usize,
     pub num_rands: usize,
     pub lagrange: bool,
+    /// the GKR proof that accompanies the Lagrange column has nothing in it (it serializes to zero
+    /// bytes, like `type GkrProof = ()`); otherwise it carries log2 of the trace length
+    pub gkr_empty: bool,
     /// sequence assertions on running-sum columns (at most one per column)
     pub asserts: Vec<AuxAssert>,
 }
@@ -328,7 +331,7 @@ impl<B: StarkField> ToElements<B> for SimInputs<B> {
                 num(1);
                 num(a.width);
                 num(a.num_rands);
-                num(a.lagrange as usize);
+                num(a.lagrange as usize + 2 * a.gkr_empty as usize);
                 num(a.asserts.len());
                 for x in &a.asserts {
                     num(x.col);
@@ -365,6 +368,30 @@ impl<B: StarkField> ToElements<B> for SimInputs<B> {
 #[derive(Debug, Clone, Default)]
 pub struct SimGkrVerifier {
     pub expected_log_len: usize,
+    pub expect_empty: bool,
+}
+
+/// The GKR "proof" of the sim AIR: log2 of the trace length, or nothing at all (zero bytes on the
+/// wire: the proof then carries `Some(vec![])`, which must survive every transport as such).
+#[derive(Debug, Clone, Copy, PartialEq, Eq)]
+pub struct SimGkrProof(pub Option<usize>);
+
+impl utils::Serializable for SimGkrProof {
+    fn write_into<W: utils::ByteWriter>(&self, target: &mut W) {
+        if let Some(v) = self.0 {
+            target.write_usize(v);
+        }
+    }
+}
+
+impl utils::Deserializable for SimGkrProof {
+    fn read_from<R: utils::ByteReader>(source: &mut R) -> Result<Self, utils::DeserializationError> {
+        if source.has_more_bytes() {
+            Ok(SimGkrProof(Some(source.read_usize()?)))
+        } else {
+            Ok(SimGkrProof(None))
+        }
+    }
 }
 
 #[derive(Debug)]
@@ -376,22 +403,24 @@ impl std::fmt::Display for SimGkrError {
 }
 
 impl GkrVerifier for SimGkrVerifier {
-    // as in winterfell's own Lagrange test AIR: the "proof" is log2(trace length)
-    type GkrProof = usize;
+    // as in winterfell's own Lagrange test AIR: the "proof" is log2(trace length), or empty
+    type GkrProof = SimGkrProof;
     type Error = SimGkrError;
 
     fn verify<E, Hasher>(
         &self,
-        gkr_proof: usize,
+        gkr_proof: SimGkrProof,
         public_coin: &mut impl RandomCoin<BaseField = E::BaseField, Hasher = Hasher>,
     ) -> Result<LagrangeKernelRandElements<E>, Self::Error>
     where
         E: FieldElement,
         Hasher: ElementHasher<BaseField = E::BaseField>,
     {
-        if gkr_proof != self.expected_log_len {
+        let expected = if self.expect_empty { None } else { Some(self.expected_log_len) };
+        if gkr_proof.0 != expected {
             return Err(SimGkrError);
         }
+        let gkr_proof = self.expected_log_len;
         let mut rand_elements: Vec<E> = Vec::with_capacity(gkr_proof);
         for _ in 0..gkr_proof {
             rand_elements.push(public_coin.draw().map_err(|_| SimGkrError)?);
@@ -441,7 +470,7 @@ impl<B: SimField> SimAir<B> {
 impl<B: SimField> Air for SimAir<B> {
     type BaseField = B;
     type PublicInputs = SimInputs<B>;
-    type GkrProof = usize;
+    type GkrProof = SimGkrProof;
     type GkrVerifier = SimGkrVerifier;
 
     // Like the example AIRs, this hands the proof-supplied TraceInfo / ProofOptions to
@@ -567,7 +596,10 @@ impl<B: SimField> Air for SimAir<B> {
     }
 
     fn get_auxiliary_proof_verifier<E: FieldElement<BaseField = B>>(&self) -> SimGkrVerifier {
-        SimGkrVerifier { expected_log_len: self.context.trace_len().ilog2() as usize }
+        SimGkrVerifier {
+            expected_log_len: self.context.trace_len().ilog2() as usize,
+            expect_empty: self.inputs.shape.aux.as_ref().map(|a| a.gkr_empty).unwrap_or(false),
+        }
     }
 }
 
@@ -792,13 +824,14 @@ where
         &self,
         main_trace: &SimTrace<B>,
         public_coin: &mut R,
-    ) -> (usize, LagrangeKernelRandElements<E>) {
+    ) -> (SimGkrProof, LagrangeKernelRandElements<E>) {
         let log_trace_len = main_trace.main.num_rows().ilog2() as usize;
         let mut rand_elements: Vec<E> = Vec::with_capacity(log_trace_len);
         for _ in 0..log_trace_len {
             rand_elements.push(public_coin.draw().expect("SUT: coin draw failed"));
         }
-        (log_trace_len, LagrangeKernelRandElements::new(rand_elements))
+        let empty = self.inputs.shape.aux.as_ref().map(|a| a.gkr_empty).unwrap_or(false);
+        (SimGkrProof(if empty { None } else { Some(log_trace_len) }), LagrangeKernelRandElements::new(rand_elements))
     }
 
     fn build_aux_trace<E: FieldElement<BaseField = B>>(
@@ -909,6 +942,7 @@ pub fn gen_shape(ch: &mut Chooser, lim: &GenLimits, max_blowup: usize) -> Shape 
             width: plain + lagrange as usize,
             num_rands: if lagrange && ch.chance("shape.norands?", 1, 3) { 0 } else { 1 + ch.index("shape.auxrands", 4) },
             lagrange,
+            gkr_empty: lagrange && ch.chance("shape.gkrempty?", 1, 3),
             asserts: if plain >= 2 && ch.chance("shape.auxassert?", 1, 2) {
                 // a sequence assertion on a running-sum column: n / stride values (both sides of
                 // the prover's 63-value switch when the trace is long enough), first step 0 (then
@@ -1074,17 +1108,42 @@ pub fn gen_rows<B: StarkField>(ch: &mut Chooser, shape: &Shape) -> Vec<Vec<B>> {
     let e = shape.exemptions;
     let salt = ch.u64("trace.salt");
     let mut rng = simcore::rng::Xoshiro::from_u64(salt);
-    let init_style = ch.weighted("trace.init", &[8, 1, 1]); // random / zeros / small
+    let init_style = ch.weighted("trace.init", &[8, 1, 1, 2]); // random / zeros / small / special members of the field
     let free_style = ch.weighted("trace.free", &[6, 2, 2]); // unconstrained columns: random / constant / linear in step
     let periodic_assert_cols: Vec<usize> =
         shape.assertions.iter().filter(|a| a.kind == AssertKind::Periodic).map(|a| a.col).collect();
     let ruled: Vec<Option<&Rule>> = (0..w).map(|c| shape.rules.iter().find(|r| r.col() == c)).collect();
     let mut rnd = |rng: &mut simcore::rng::Xoshiro| -> B { felt::<B>(rng.next() >> 2) };
+    // members of the field next to its ends and next to the powers of two at which the
+    // representations of the three fields change (2^31, 2^32, 2^61..2^64, (p-1)/2, -2^32)
+    let special = |rng: &mut simcore::rng::Xoshiro| -> B {
+        let two = B::ONE + B::ONE;
+        let p2 = |k: u32| two.exp(k.into());
+        match rng.below(16) {
+            0 => B::ZERO,
+            1 => B::ONE,
+            2 => -B::ONE,
+            3 => -two,
+            4 => two,
+            5 => p2(31),
+            6 => p2(32) - B::ONE,
+            7 => p2(32),
+            8 => -p2(32),
+            9 => -(p2(32) - B::ONE),
+            10 => (-B::ONE) / two,
+            11 => (-B::ONE) / two + B::ONE,
+            12 => p2(61),
+            13 => p2(63) - B::ONE,
+            14 => -p2(31),
+            _ => p2(B::MODULUS_BITS - 1) - B::ONE,
+        }
+    };
     let row0: Vec<B> = (0..w)
         .map(|_| match init_style {
             0 => rnd(&mut rng),
             1 => B::ZERO,
-            _ => felt::<B>(rng.below(4)),
+            2 => felt::<B>(rng.below(4)),
+            _ => special(&mut rng),
         })
         .collect();
     let free_c: Vec<B> = (0..w).map(|_| rnd(&mut rng)).collect();
